@@ -159,6 +159,7 @@ import BGV
 #print axioms BGV.C11_findAllVertexPredecessors
 #print axioms BGV.C11_entry_all
 #print axioms BGV.C11_findGeodesics
+#print axioms BGV.C11_findAllGeodesics
 
 -- C12
 #print axioms BGV.C12_dijkstra_correct
